@@ -34,6 +34,8 @@ def run(check: Check, repo: Repo, tier: str) -> None:
     K.int_atoms(check, repo)
     K.int_range_table(check, repo)
     K.enum_input_classes(check, repo)
+    K.enum_direction(check, repo)
+    K.str_verbatim(check, repo)
     K.literal_rule_delegates(check, repo)
     K.domain_guards(check, repo, INPUT_ROLES)
     check.floor("DOMAIN-GUARDS", 6, "input coercers and helpers")
